@@ -47,14 +47,22 @@ func genChangelog(t *rt.Tape, tier string) ([]*clEntry, []byte) {
 	return genChangelogR(t, tier, rt.NewRun(rt.NewTape(0)))
 }
 
+// clAllowMany: only the main workload of C17 draws changelogs with hundreds or
+// thousands of entries (its step budget is scaled accordingly).
+var clAllowMany bool
+
 func genChangelogR(t *rt.Tape, tier string, r *rt.Run) ([]*clEntry, []byte) {
 	maxEntries := 4
 	if tier == "thorough" {
 		maxEntries = 8
 	}
 	n := t.Range(1, maxEntries, "cl.entries")
-	if r != nil && t.Bool(1, 80, "cl.many") {
+	if r != nil && clAllowMany && t.Bool(1, 80, "cl.many") {
 		n = 100 + t.Draw(500, "cl.many.n")
+		if t.Bool(1, 5, "cl.many.thousands") {
+			// a long-lived package: thousands of entries (past 4096 and other round numbers)
+			n = 4000 + t.Draw(6000, "cl.many.n")
+		}
 		r.Probe("changelog-with-hundreds-of-entries")
 	}
 	var sb strings.Builder
@@ -270,7 +278,13 @@ func runC17(r *rt.Run, tier string) {
 		c17Concurrent(r, tier)
 		return
 	}
+	clAllowMany = true
 	entries, doc := genChangelogR(t, tier, r)
+	clAllowMany = false
+	if len(doc) > 20000 {
+		// the default budget is meant for changelogs of a few entries
+		r.StepBudget += 100 * int64(len(doc))
+	}
 	faulty := t.Bool(1, 2, "config.faulty")
 	api := "Parse"
 	clBufSize = 0
